@@ -96,6 +96,8 @@ pub struct ProcOut {
     pub stdout: Vec<u8>,
     pub stderr: Vec<u8>,
     pub stats: Option<Stats>,
+    /// the scheduler decision list, when recording was requested (SKASIM_RECORD_ALL)
+    pub recorded: Option<Vec<u64>>,
 }
 impl ProcOut {
     pub fn ok(&self) -> bool {
@@ -306,9 +308,13 @@ pub fn run_proc(dir: &RunDir, p: &Proc, log: &mut Vec<String>) -> Result<ProcOut
         cmd.env("SKASIM_REPLAY", dir.p(&name));
         replay_file = Some(name);
     }
-    if let Ok(r) = std::env::var("SKASIM_RECORD_TO") {
-        cmd.env("SKASIM_RECORD", r);
-    }
+    let record_file = if std::env::var_os("SKASIM_RECORD_ALL").is_some() {
+        let name = format!(".record.{}", RUN_COUNTER.fetch_add(1, Ordering::Relaxed));
+        cmd.env("SKASIM_RECORD", dir.p(&name));
+        Some(name)
+    } else {
+        None
+    };
     // no pre_exec: keeps std on the posix_spawn path (a fork of the 16-thread parent is very slow);
     // the CPU backstop is set by the child itself (SKASIM_CPU)
     cmd.env("SKASIM_CPU", "300");
@@ -318,6 +324,14 @@ pub fn run_proc(dir: &RunDir, p: &Proc, log: &mut Vec<String>) -> Result<ProcOut
     if let Some(n) = replay_file {
         dir.remove(&n);
     }
+    let recorded = record_file.map(|n| {
+        let v = dir
+            .read(&n)
+            .map(|d| String::from_utf8_lossy(&d).split_whitespace().filter_map(|t| t.parse().ok()).collect())
+            .unwrap_or_default();
+        dir.remove(&n);
+        v
+    });
     use std::os::unix::process::ExitStatusExt;
     let stats = String::from_utf8_lossy(&out.stderr)
         .lines()
@@ -330,6 +344,7 @@ pub fn run_proc(dir: &RunDir, p: &Proc, log: &mut Vec<String>) -> Result<ProcOut
         stdout: out.stdout,
         stderr: out.stderr,
         stats,
+        recorded,
     };
     if po.signal == Some(libc::SIGXCPU) || po.signal == Some(libc::SIGKILL) {
         return Err(HarnessError(format!(
